@@ -304,6 +304,50 @@ def k_tick_replay(tick0):
     return ok()
 
 
+def reaper_fires(pattern):
+    """Real _run_forever + real _run_once on an executor holding one idle tunnel; per iteration the selector reports
+    client data (busy) or nothing (idle) according to `pattern` (0 all idle, 1 all busy, 2 alternating, 3 busy bursts).
+    The sweep must run within period+1 iterations whatever the load. Concrete execution (NOT a solver claim): the
+    iteration count (~40) times a symbolic load bit per iteration is out of reach."""
+    begin()
+    S = TL.DEFAULT_SELECTOR_SELECT_TIMEOUT
+    env = envkit.new_env()
+    xk = envkit.Executor(_flags(FLAGS, 10), env)
+    cs = xk.accept('client')
+    ex = xk.ex
+    cs.inq.append(b'CONNECT h.example:443 HTTP/1.1\r\n\r\n')
+    xk.step()
+    xk.step()
+    W, C = ex.wait_timeout, ex.cleanup_inactive_timeout
+    period = 0
+    while period * (S + W) < C:
+        period += 1
+    fired = []
+    real_cleanup = ex._cleanup_inactive
+    ex._cleanup_inactive = lambda: (fired.append(st['n']), real_cleanup())
+    st = {'n': 0}
+    real_select = ex.selector.select
+
+    def select(timeout=None):
+        st['n'] += 1
+        if st['n'] > period + 2:
+            raise _Stop()
+        n = st['n']
+        busy = {0: False, 1: True, 2: n % 2 == 0, 3: n % 5 != 0}[pattern]
+        if busy and not cs.closed:
+            cs.inq.append(b'x')
+        xk.sync()
+        return real_select(timeout)
+    ex.selector.select = select
+    try:
+        run(ex._run_forever())
+    except _Stop:
+        pass
+    if not fired:
+        return fail('the inactive-connection sweep did not run within period+1 iterations', period=period, pattern=pattern)
+    return ok()
+
+
 def obligations(tier):
     obs = []
     import itertools
@@ -322,6 +366,8 @@ def obligations(tier):
     for pend in ([0, 0], [1, 0], [0, 1], [1, 1]):
         obs.append({'name': 'reaper.pending%d%d' % tuple(pend), 'fn': 'reaper', 'cfg': {'pending': pend}, 'timeout': 300})
     obs.append({'name': 'threaded.run', 'fn': 'threaded', 'cfg': {}, 'timeout': 300})
+    obs.append({'name': 'concrete.reaper_fires', 'kind': 'concrete', 'fn': 'reaper_fires', 'cfg': {}, 'group': 'concrete',
+                'args_list': [[0], [1], [2], [3]], 'timeout': 120})
     obs.append({'name': 'kernel.tick', 'kind': 'smt', 'fn': 'k_tick', 'replay_fn': 'k_tick_replay', 'cfg': {}, 'timeout': 60, 'group': 'k_tick'})
     return obs
 
